@@ -28,3 +28,37 @@ func zzC04_hash() {
 	}
 	zzReached("end")
 }
+
+// an image with fully transparent pixels (generic conversion path), hashed on pristine pools, after another image, and
+// again: the recycled pixel buffers must not show through
+type zzImg04a struct {
+	r   image.Rectangle
+	cut bool
+}
+
+func (z zzImg04a) ColorModel() color.Model { return color.NRGBAModel }
+func (z zzImg04a) Bounds() image.Rectangle { return z.r }
+func (z zzImg04a) At(x, y int) color.Color {
+	if z.cut && x >= 8 && x < 40 && y >= 16 && y < 48 {
+		return color.NRGBA{}
+	}
+	return color.NRGBA{R: uint8(x*3 + y*5), G: uint8(x * 7), B: uint8(255 - y*3), A: 255}
+}
+
+func zzC04_hashprimed_N() int { return 2 }
+func zzC04_hashprimed() {
+	cutout := zzImg04a{r: image.Rect(0, 0, 64, 64), cut: true}
+	opaque := zzImg04a{r: image.Rect(0, 0, 64, 64)}
+	if zzPart() == 0 {
+		a, ea := NewPHash64(cutout)
+		_, _ = NewPHash64(opaque)
+		b, eb := NewPHash64(cutout)
+		zzAssert(ea == nil && eb == nil && a == b, "NewPHash64 of an image with transparent pixels is the same before and after another image")
+	} else {
+		a, ea := NewPHash64Alt(cutout)
+		_, _ = NewPHash64Alt(opaque)
+		b, eb := NewPHash64Alt(cutout)
+		zzAssert(ea == nil && eb == nil && a == b, "NewPHash64Alt of an image with transparent pixels is the same before and after another image")
+	}
+	zzReached("end")
+}
